@@ -626,6 +626,54 @@ theorem encodeHeader_congr (t : Int) (a b : Bytes) (hl : a.length = b.length) (h
   unfold encodeHeader; rw [hl, hc]
 
 
+/-! ### the table-driven loop of crc32.h computes the bitwise CRC -/
+
+theorem crcBit_double (m : Nat) : crcBit (2 * m) = m := by
+  unfold crcBit
+  rw [if_neg (by omega)]
+  omega
+
+theorem crcByte_shift (hi : Nat) : crcByte (256 * hi) = hi := by
+  have : 256 * hi = 2 * (2 * (2 * (2 * (2 * (2 * (2 * (2 * hi))))))) := by omega
+  unfold crcByte
+  rw [this]
+  simp only [crcBit_double]
+
+theorem split_low_byte (x : Nat) : x = (256 * (x / 256)) ^^^ (x % 256) := by
+  apply Nat.eq_of_testBit_eq
+  intro i
+  rw [Nat.testBit_xor]
+  have h256 : (256 : Nat) = 2 ^ 8 := by decide
+  rw [h256, Nat.testBit_two_pow_mul, Nat.testBit_mod_two_pow, Nat.testBit_div_two_pow]
+  by_cases h : i < 8
+  · have : ¬ (8 ≤ i) := by omega
+    simp [h, this]
+  · have h8 : 8 ≤ i := by omega
+    have : i - 8 + 8 = i := by omega
+    simp [h, h8, this]
+
+theorem table_get (i : Nat) (h : i < 256) : Gen.crcTable.getD i 0 = crcByte i := by
+  have key : ∀ i : Fin 256, Gen.crcTable.getD i.val 0 = crcByte i.val := by decide +kernel
+  exact key ⟨i, h⟩
+
+theorem tableStep_eq (c : Nat) (b : UInt8) : tableStep c b = crcUpdate c b := by
+  unfold tableStep crcUpdate
+  have hb := b.toNat_lt
+  have hx := split_low_byte (c ^^^ b.toNat)
+  have hand : (c ^^^ b.toNat) &&& 0xFF = (c ^^^ b.toNat) % 256 := by
+    have := @Nat.and_two_pow_sub_one_eq_mod (c ^^^ b.toNat) 8
+    simpa using this
+  have hdiv : (c ^^^ b.toNat) / 256 = c >>> 8 := by
+    rw [Nat.shiftRight_eq_div_pow]
+    have h1 : (c ^^^ b.toNat) >>> 8 = c >>> 8 ^^^ b.toNat >>> 8 := Nat.shiftRight_xor_distrib
+    rw [Nat.shiftRight_eq_div_pow, Nat.shiftRight_eq_div_pow, Nat.shiftRight_eq_div_pow] at h1
+    have h2 : b.toNat / 2 ^ 8 = 0 := Nat.div_eq_of_lt (by simpa using hb)
+    rw [h2, Nat.xor_zero] at h1
+    exact h1
+  rw [hand, table_get _ (Nat.mod_lt _ (by decide))]
+  conv => rhs; rw [hx, crcByte_xor, crcByte_shift, hdiv]
+
+
 /-! ### crash states byte by byte -/
 
 theorem mixAux_getElem? (S : Nat) (T : Nat → Bool) (p : Nat) (o l : Bytes) (q : Nat)
